@@ -169,6 +169,24 @@ def step (c : Cfg) (s : S) : Act → S
 
 def run (c : Cfg) : S → List Act → S := List.foldl (step c)
 
+/-! ### one call at a time with fresh reads (the sequential lockstep runs the real rings against THIS function too, so the
+count formulas, the `% C` slot addressing and the data movement of the interleaving model are tied to the code, not only
+its memory orders) -/
+
+/-- the producer performs one call alone: load (fresh), its slot writes, store -/
+def seqProducer (c : Cfg) (s : S) (op : POp) : S :=
+  let s1 := step c { s with pTodo := [op] } (.pLoad s.tail)
+  let n := match s1.pPc with | .writing _ n _ => n | .idle => 0
+  let s2 := (List.range n).foldl (fun s _ => step c s .pWrite) s1
+  step c s2 .pStore
+
+/-- the consumer performs one call alone: load (fresh), its slot reads, store -/
+def seqConsumer (c : Cfg) (s : S) (op : QOp) : S :=
+  let s1 := step c { s with qTodo := [op] } (.qLoad s.head)
+  let n := match s1.qPc with | .reading _ n _ => n | .idle => 0
+  let s2 := (List.range n).foldl (fun s _ => step c s .qRead) s1
+  step c s2 .qStore
+
 /-- the producer's next slot write (index `head + k`) races with an earlier consumer read of the same slot that is not
 ordered before it -/
 def RaceP (c : Cfg) (s : S) : Prop :=
@@ -202,8 +220,13 @@ def classes : List String := ["RingBuffer", "DynamicRingBuffer"]
 
 abbrev Orders := List (String × String × String × String × String)
 
+/-- all events of one method, source order: (variable, kind, order) -/
 def accessesOf (o : Orders) (cls m : String) : List (String × String × String) :=
   (o.filter (fun r => r.1 == cls && r.2.1 == m)).map (fun r => r.2.2)
+
+/-- the atomic accesses (counters only) of one method -/
+def counterAccessesOf (o : Orders) (cls m : String) : List (String × String × String) :=
+  (accessesOf o cls m).filter (fun a => a.1 != "_buffer")
 
 /-- a producer method reads `_head` (any order), reads `_tail` with acquire, stores only `_head`, with release -/
 def producerOk (acc : List (String × String × String)) : Bool :=
@@ -220,20 +243,65 @@ def consumerOk (acc : List (String × String × String)) (mayStore : Bool) : Boo
     if a.2.1 == "load" then (if a.1 == "_head" then isAcq a.2.2 else true)
     else mayStore && a.1 == "_tail" && isRel a.2.2)
 
-def ordersOK (o : Orders) : Bool :=
+def countersOK (o : Orders) : Bool :=
   classes.all (fun cls =>
-    producerMethods.all (fun m => producerOk (accessesOf o cls m)) &&
-    consumerMethods.all (fun m => consumerOk (accessesOf o cls m) (m != "peek#0")) &&
-    (accessesOf o cls "tryPop#0").any (fun a => a.1 == "_tail" && a.2.1 == "store") &&
-    (accessesOf o cls "tryPopBatch#0").any (fun a => a.1 == "_tail" && a.2.1 == "store"))
+    producerMethods.all (fun m => producerOk (counterAccessesOf o cls m)) &&
+    consumerMethods.all (fun m => consumerOk (counterAccessesOf o cls m) (m != "peek#0")) &&
+    (counterAccessesOf o cls "tryPop#0").any (fun a => a.1 == "_tail" && a.2.1 == "store") &&
+    (counterAccessesOf o cls "tryPopBatch#0").any (fun a => a.1 == "_tail" && a.2.1 == "store"))
 
-/-- the memory orders of the source are sufficient: every cross-thread counter load is acquire, every counter store in a
-producer/consumer method is release, each counter has one writer -/
+/-! ### exact event shape of every method (what makes the step order of the interleaving model the code's order) -/
+
+/-- requirement on the order of one event -/
+inductive Req | any | acq | rel | plain deriving DecidableEq
+
+def reqOk : Req → String → Bool
+  | .any, o => o != "plain"
+  | .acq, o => isAcq o
+  | .rel, o => isRel o
+  | .plain, o => o == "plain"
+
+/-- producer: load own counter, load the other counter (acquire), WRITE the slot(s), then publish with one release store -/
+def shapeProducer : List (String × String × Req) :=
+  [("_head", "load", .any), ("_tail", "load", .acq), ("_buffer", "write", .plain), ("_head", "store", .rel)]
+/-- consumer: load own counter, load the other counter (acquire), READ the slot(s), then release them with one store -/
+def shapeConsumer : List (String × String × Req) :=
+  [("_tail", "load", .any), ("_head", "load", .acq), ("_buffer", "read", .plain), ("_tail", "store", .rel)]
+def shapePeek : List (String × String × Req) :=
+  [("_tail", "load", .any), ("_head", "load", .acq), ("_buffer", "read", .plain)]
+def shapeSize : List (String × String × Req) := [("_head", "load", .any), ("_tail", "load", .any)]
+def shapeClear : List (String × String × Req) := [("_head", "store", .any), ("_tail", "store", .any)]
+def shapeResize : List (String × String × Req) :=
+  [("_tail", "load", .any), ("_head", "load", .any), ("_buffer", "read", .plain), ("_buffer", "assign", .plain),
+   ("_tail", "store", .any), ("_head", "store", .any)]
+
+/-- the methods of a class and the exact sequence of events each must consist of -/
+def methodShapes (cls : String) : List (String × List (String × String × Req)) :=
+  [("tryPush#0", shapeProducer), ("tryPush#1", shapeProducer), ("tryPop#0", shapeConsumer), ("peek#0", shapePeek),
+   ("tryPushBatch#0", shapeProducer), ("tryPopBatch#0", shapeConsumer), ("size#0", shapeSize), ("clear#0", shapeClear)] ++
+  (if cls == "DynamicRingBuffer" then [("resize#0", shapeResize)] else [])
+
+def matchesShape : List (String × String × String) → List (String × String × Req) → Bool
+  | [], [] => true
+  | a :: as, e :: es => a.1 == e.1 && a.2.1 == e.2.1 && reqOk e.2.2 a.2.2 && matchesShape as es
+  | _, _ => false
+
+/-- every method consists of exactly its expected events in exactly that order, and there are no rows of other methods or classes -/
+def shapeOK (o : Orders) : Bool :=
+  classes.all (fun cls => (methodShapes cls).all (fun ms => matchesShape (accessesOf o cls ms.1) ms.2)) &&
+  o.all (fun r => classes.any (fun cls => r.1 == cls && (methodShapes cls).any (fun ms => ms.1 == r.2.1)))
+
+def ordersOK (o : Orders) : Bool := countersOK o && shapeOK o
+
+/-- the accesses of the source are the modelled ones: every cross-thread counter load is acquire, every counter store in a
+producer/consumer method is release, each counter has one writer, and every method is exactly "counter loads, slot
+accesses, one store" in that source order (so publishing before the slot write, or releasing before the slot read, is
+rejected) -/
 def OrdersOK (o : Orders) : Prop := ordersOK o = true
 instance (o : Orders) : Decidable (OrdersOK o) := inferInstanceAs (Decidable (_ = _))
 
 def allOf (o : Orders) (ms : List String) (var acc : String) (p : String → Bool) : Bool :=
-  classes.all (fun cls => ms.all (fun m => (accessesOf o cls m).all (fun a => if a.1 == var && a.2.1 == acc then p a.2.2 else true)))
+  classes.all (fun cls => ms.all (fun m => (counterAccessesOf o cls m).all (fun a => if a.1 == var && a.2.1 == acc then p a.2.2 else true)))
 
 /-- configuration of the view model determined by the extracted orders (the weakest order over all methods of both classes) -/
 def cfgOf (o : Orders) (C : Nat) : Cfg :=
